@@ -29,7 +29,7 @@ const maxLen = "281474976710656" // 2^48
 // preludeHard: quantified string axioms that make model construction hard; dropped in
 // counterexample-search queries (candidates are validated by replay on the real code).
 func preludeIsHard(l string) bool {
-	return strings.Contains(l, "forall") && (strings.Contains(l, "(ssub s a b)") || strings.Contains(l, "(scat s t)") || strings.Contains(l, "(= s str_empty)"))
+	return strings.Contains(l, "forall") && (strings.Contains(l, "(ssub s a b)") || strings.Contains(l, "(ssub (ssub") || strings.Contains(l, "(scat s t)") || strings.Contains(l, "(= s str_empty)"))
 }
 
 var prelude = []string{
@@ -49,6 +49,7 @@ var prelude = []string{
 	"(assert (forall ((s Str) (a Int) (b Int)) (! (=> (and (<= 0 a) (<= a b) (<= b (slen s))) (= (slen (ssub s a b)) (- b a))) :pattern ((ssub s a b)))))",
 	"(assert (forall ((s Str) (a Int) (b Int) (i Int)) (! (=> (and (<= 0 a) (<= a b) (<= b (slen s)) (<= 0 i) (< i (- b a))) (= (sat (ssub s a b) i) (sat s (+ a i)))) :pattern ((sat (ssub s a b) i)))))",
 	"(assert (forall ((s Str) (t Str)) (! (= (slen (scat s t)) (+ (slen s) (slen t))) :pattern ((scat s t)))))",
+	"(assert (forall ((s Str) (a Int) (b Int) (c Int) (d Int)) (! (=> (and (<= 0 a) (<= a b) (<= b (slen s)) (<= 0 c) (<= c d) (<= d (- b a))) (= (ssub (ssub s a b) c d) (ssub s (+ a c) (+ a d)))) :pattern ((ssub (ssub s a b) c d)))))",
 	"(declare-const iface_nil Iface)",
 	"(declare-fun typeof (Iface) Int)",
 	"(assert (= (typeof iface_nil) 0))",
